@@ -100,6 +100,7 @@ func main() {
 	hooksrc := flag.String("hooksrc", "overlay_src/zzsimhook", "zzsimhook source dir")
 	doFS := flag.Bool("fs", false, "rewrite storage/fsstore os calls")
 	yield := flag.String("yield", "", "comma-separated package dirs (relative to repo) to receive function-entry yields")
+	detmaps := flag.String("detmaps", "", "GOROOT whose runtime is overlaid so that Go map iteration order and hashing are the same in every process (replay determinism of the C20 child)")
 	flag.Parse()
 
 	absRepo, _ := filepath.Abs(*repo)
@@ -251,6 +252,56 @@ func main() {
 			edits = append(edits, edit{off(f.Name.End()), 0, "; " + hookImport})
 			edits = append(edits, edit{len(src), 0, "\nvar _ = zzsimhook.Y\n"})
 			emit(path, apply(src, edits))
+		}
+	}
+	if *detmaps != "" {
+		type rep struct{ file, old, new string }
+		reps := []rep{
+			{"src/runtime/alg.go", "hashkey[i] = uintptr(bootstrapRand())", "hashkey[i] = uintptr(0x9e3779b97f4a7c15) + uintptr(i)"},
+			{"src/runtime/alg.go", "key[i] = bootstrapRand()", "key[i] = 0x9e3779b97f4a7c15 * uint64(i+1)"},
+			{"src/internal/runtime/maps/table.go", "it.entryOffset = rand()", "it.entryOffset = 0"},
+			{"src/internal/runtime/maps/table.go", "it.dirOffset = rand()", "it.dirOffset = 0"},
+			{"src/internal/runtime/maps/map.go", "m.seed = uintptr(rand())", "m.seed = 0x5bd1e995"},
+			// In race builds sync.Pool.Put drops its argument at random (1 in 4) to break the
+			// happens-before edge that pool reuse creates. Dropping always makes the detector's
+			// view deterministic and removes every pool-mediated edge between tasks.
+			{"src/sync/pool.go", "if runtime_randn(4) == 0 {", "if true {"},
+		}
+		content := map[string][]byte{}
+		okAll := true
+		for _, r := range reps {
+			path := filepath.Join(*detmaps, r.file)
+			if content[path] == nil {
+				b, err := os.ReadFile(path)
+				if err != nil {
+					okAll = false
+					break
+				}
+				content[path] = b
+			}
+			if !strings.Contains(string(content[path]), r.old) {
+				okAll = false
+				break
+			}
+			content[path] = []byte(strings.ReplaceAll(string(content[path]), r.old, r.new))
+		}
+		if okAll {
+			var paths []string
+			for p := range content {
+				paths = append(paths, p)
+			}
+			sort.Strings(paths)
+			for _, p := range paths {
+				gen++
+				dst := filepath.Join(absOut, fmt.Sprintf("%04d_goroot_%s", gen, filepath.Base(p)))
+				if err := os.WriteFile(dst, content[p], 0666); err != nil {
+					die("%v", err)
+				}
+				replace[p] = dst
+			}
+			fmt.Println("instrument: deterministic map iteration/hashing overlay installed for", *detmaps)
+		} else {
+			fmt.Println("instrument: WARNING: this toolchain's runtime does not match the detmaps patterns; map iteration stays randomised (C20 replays may not be exact)")
 		}
 	}
 	ov := map[string]interface{}{"Replace": replace}
